@@ -42,7 +42,7 @@ CLAIMED = {
                 note=NOTE_STD + 'Partial: Python object mutation lives in the runtime; per-call frame conditions are established on the explored sequences only.', technique='Coq proof of the lifting lemma + differential / snapshot testing of the per-call frame condition', ref='DESIGN.md section 4, C15'),
     'C16': dict(text='Proof: edges are the non-burst cycles adjacent to a burst; a cell differs from the input only if it is the amp/period consistency of an edge row; the new value is the one-sided consistency on the original table (NaN at table ends); new labels = threshold-and-run rule on the edited table; with unchanged or lowered (binary64) thresholds every bursting cycle stays bursting; pre-repair behaviour refuted. Correspondence: recompute_edges / Bycycle.recompute_edges on tables from generated signals with several reductions, all cells compared.',
                 note=NOTE_STD, technique=T_STD, ref='DESIGN.md section 4, C16'),
-    'C17': dict(text='Proof (no axioms, exact rationals in quarter turns): on well-formed cyclepoints the phase is 0 at peaks, -pi at troughs, -+pi/2 at midpoints, within [-pi, pi], strictly increasing between cyclepoints except the wrap landing on a trough, defined exactly on [first, last cyclepoint]; the pre-repair end mask is refuted by two witnesses. Correspondence: extrema_interpolated_phase on cyclepoints from generated signals and on every alternating placement on short arrays, values within 1e-6 quarter turns and NaN pattern exactly.',
+    'C17': dict(text='Proof (no axioms, exact rationals in quarter turns): on well-formed cyclepoints the phase is 0 at peaks, -pi at troughs, -+pi/2 at midpoints, within [-pi, pi], strictly increasing between cyclepoints except the wrap landing on a trough, defined exactly on [first, last cyclepoint]; the pre-repair end mask and the pre-repair start mask are refuted by three witnesses. Correspondence: extrema_interpolated_phase on cyclepoints from generated signals and on every alternating placement on short arrays, values within 1e-6 quarter turns and NaN pattern exactly.',
                 note=NOTE_STD + 'The model computes in Q; the float interpolation of numpy is tied by tolerance only.', technique=T_STD, ref='DESIGN.md section 4, C17'),
     'C18': dict(text='Proof: limit_df = filter (in order, payload untouched) + one uniform shift of all six sample columns; rows inside the window kept, rows outside not kept (binary64 order); limits accepted iff valid (None allowed); limit_signal = filter start <= t < stop; split/drop = partition of the columns; flatten = concatenation with per-table labels, 2-D row-major. Correspondence: all five functions on synthetic tables / grids incl. limits on cycle boundaries and empty windows.',
                 note=NOTE_STD, technique=T_STD, ref='DESIGN.md section 4, C18'),
